@@ -20,6 +20,8 @@ PROPS = {
     "C01": {
         "title": "Encode then decode returns the same message",
         "profiles": ["dev"],
+        "thorough_profiles": ["asan"],
+        "scale": {"asan": 0.1},
         "rule": ("cases: all 16384 (method,class) pairs; every ordinary attribute kind x boundary size "
                  "classes x all 8 tails; random attribute sequences (quick <=12, thorough <=40 attributes); "
                  "large blobs. Oracle: the generated logical message; tail values re-computed by the "
@@ -34,6 +36,8 @@ PROPS = {
     "C02": {
         "title": "Bytes on the wire follow the RFC layouts (independent reference codec)",
         "profiles": ["dev"],
+        "thorough_profiles": ["asan"],
+        "scale": {"asan": 0.1},
         "rule": ("forward: library bytes == bytes of the independent reference codec (refstun::wire) for the same "
                  "logical message; backward: reference bytes with noise (random / all-ones / each of 256 byte values) "
                  "in every ignorable position (padding, reserved/RFFU bits, address first octet, ERROR-CODE upper "
@@ -69,6 +73,8 @@ PROPS = {
     "C14": {
         "title": "Encoding respects the caller's buffer and the 64 KiB message limit",
         "profiles": ["dev", "release"],
+        "thorough_profiles": ["asan"],
+        "scale": {"asan": 0.2},
         "crash_is_violation": True,
         "rule": ("needed length and canonical bytes from the reference codec; (a) every buffer length 0..needed+8 for "
                  "generated messages <= 300 bytes with prefill 0x00/0xFF/random, (b) 64 sampled lengths for larger "
@@ -83,8 +89,8 @@ PROPS = {
     "C19": {
         "title": "Value types never panic and clones are independent",
         "profiles": ["dev", "release"],
-        "thorough_profiles": ["miri"],
-        "scale": {"miri": 0.01},
+        "thorough_profiles": ["asan", "miri"],
+        "scale": {"asan": 0.1, "miri": 0.01},
         "crash_is_violation": True,
         "rule": ("panic monitor (catch_unwind + hook recording message/location) around every public constructor, "
                  "accessor, conversion and mutator of the stun-rs value types and the agent's StunAttributes / client "
@@ -102,6 +108,8 @@ PROPS = {
     "C18": {
         "title": "Decoder options only filter or decorate; they never change what the bytes mean",
         "profiles": ["dev"],
+        "thorough_profiles": ["asan"],
+        "scale": {"asan": 0.1},
         "rule": ("each input (reference-built messages with noise and unknown attribute types of every length mod 4, "
                  "their structure-aware mutations, RFC vectors and mutations) is decoded under all 16 option "
                  "combinations and the context-less decoder; relations: R1 validation-on Ok(m) => validation-off Ok(m); "
@@ -116,6 +124,8 @@ PROPS = {
     "C04": {
         "title": "Message integrity accepts exactly the untampered message under the right key",
         "profiles": ["dev"],
+        "thorough_profiles": ["asan"],
+        "scale": {"asan": 0.1},
         "rule": ("library-encoded messages with tails MI / SHA256 / MI+SHA256, each with and without FINGERPRINT, under "
                  "short-term, long-term-MD5 and long-term-SHA256 keys; oracles: HMACKey::as_bytes() == reference key "
                  "(OpaqueString(password); MD5/SHA-256 of user:OpaqueString(realm):OpaqueString(password)), MAC bytes == "
@@ -134,6 +144,8 @@ PROPS = {
     "C16": {
         "title": "Stream reassembly yields the same packets however the stream is chunked",
         "profiles": ["dev"],
+        "thorough_profiles": ["asan"],
+        "scale": {"asan": 0.1},
         "crash_is_violation": True,
         "rule": ("streams of 1-3 packets (STUN header + 0..1000 attribute bytes, zero-length messages included; one in "
                  "five streams ends with a 20-byte block that is not a STUN header) fed to StunPacketDecoder in chunks, a "
